@@ -43,17 +43,17 @@ theorem applySteps_body (F : BodyFn) (t : TaskSpec) (w : World) :
 @[simp] theorem stateOf_db (P : Project) (w : World) (d : DB) (v : Nat) : stateOf P { w with db := d } v = stateOf P w v := rfl
 
 theorem rowSteps_db (P : Project) (w : World) (d : DB) (t : Nat) (vs : List Nat) :
-    rowSteps P { w with db := d } t vs = rowSteps P w t vs := by
+    rowStepsEach P { w with db := d } t vs = rowStepsEach P w t vs := by
   induction vs with
   | nil => rfl
-  | cons v vs ih => simp only [rowSteps, stateOf_db, ih]
+  | cons v vs ih => simp only [rowStepsEach, stateOf_db, ih]
 
 theorem applySteps_rows (P : Project) (g : G) (t : Nat) (vs : List Nat) (w : World) :
-    applySteps w (rowSteps P w t vs) = (updateStates P g w t vs).1 := by
+    applySteps w (rowStepsEach P w t vs) = (updateStates P g w t vs).1 := by
   induction vs generalizing w with
   | nil => rfl
   | cons v vs ih =>
-    unfold rowSteps updateStates
+    unfold rowStepsEach updateStates
     cases h : stateOf P w v with
     | none => rfl
     | some x =>
@@ -74,19 +74,19 @@ theorem applySteps_phases (F : BodyFn) (P : Project) (g : G) (cfg : Cfg) (s : Se
       by_cases h2 : (t.prods.any fun p => (lookup (runBody F t s.w.fs).1 p).isNone) = true <;> simp [h1, h2]
 
 theorem reportSteps_none (P : Project) (g : G) (cfg : Cfg) (s : Sess) (t : TaskSpec) :
-    reportSteps P g cfg s t .none = if cfg.dry then [] else rowSteps P s.w t.id (neighbours g t.id) := by
-  unfold reportSteps; rw [recordsOn_none, neighboursBy_eq]; cases cfg.dry <;> rfl
+    reportStepsEach P g cfg s t .none = if cfg.dry then [] else rowStepsEach P s.w t.id (neighbours g t.id) := by
+  unfold reportStepsEach; rw [recordsOn_none, neighboursBy_eq]; cases cfg.dry <;> rfl
 
 theorem reportSteps_persisted (P : Project) (g : G) (cfg : Cfg) (s : Sess) (t : TaskSpec) :
-    reportSteps P g cfg s t .persisted = if cfg.dry then [] else rowSteps P s.w t.id (neighbours g t.id) := by
-  unfold reportSteps; rw [recordsOn_persisted, neighboursBy_eq]; cases cfg.dry <;> rfl
+    reportStepsEach P g cfg s t .persisted = if cfg.dry then [] else rowStepsEach P s.w t.id (neighbours g t.id) := by
+  unfold reportStepsEach; rw [recordsOn_persisted, neighboursBy_eq]; cases cfg.dry <;> rfl
 
 theorem reportSteps_other (P : Project) (g : G) (cfg : Cfg) (s : Sess) (t : TaskSpec) (r : Raised)
-    (h1 : r ≠ .none) (h2 : r ≠ .persisted) : reportSteps P g cfg s t r = [] := by
+    (h1 : r ≠ .none) (h2 : r ≠ .persisted) : reportStepsEach P g cfg s t r = [] := by
   cases r <;> first | exact absurd rfl h1 | exact absurd rfl h2 | rfl
 
 theorem applySteps_report (P : Project) (g : G) (cfg : Cfg) (s : Sess) (t : TaskSpec) (r : Raised) :
-    applySteps s.w (reportSteps P g cfg s t r) = (processReport P g cfg s t r).w := by
+    applySteps s.w (reportStepsEach P g cfg s t r) = (processReport P g cfg s t r).w := by
   cases r
   case none =>
     rw [reportSteps_none]; unfold processReport recordStates
@@ -102,21 +102,21 @@ theorem applySteps_report (P : Project) (g : G) (cfg : Cfg) (s : Sess) (t : Task
   all_goals (rw [reportSteps_other _ _ _ _ _ _ (by simp) (by simp)]; rfl)
 
 theorem applySteps_protocol (F : BodyFn) (P : Project) (g : G) (cfg : Cfg) (s : Sess) (t : TaskSpec) :
-    applySteps s.w (protocolSteps F P g cfg s t) = (protocol F P g cfg s t).w := by
-  unfold protocolSteps protocol
+    applySteps s.w (protocolStepsEach F P g cfg s t) = (protocol F P g cfg s t).w := by
+  unfold protocolStepsEach protocol
   simp only [applySteps_append, applySteps_phases]
   exact applySteps_report P g cfg _ t _
 
 theorem applySteps_loop (F : BodyFn) (P : Project) (g : G) (cfg : Cfg) :
     ∀ (picks : List Nat) (so : Sorter) (s : Sess) (so' : Sorter) (s' : Sess),
-      buildLoop F P g cfg so s picks = .ok (so', s') → applySteps s.w (loopSteps F P g cfg so s picks) = s'.w
+      buildLoop F P g cfg so s picks = .ok (so', s') → applySteps s.w (loopStepsEach F P g cfg so s picks) = s'.w
   | [], so, s, so', s', h => by
     simp only [buildLoop, Except.ok.injEq, Prod.mk.injEq] at h
     obtain ⟨_, rfl⟩ := h
     rfl
   | t :: ts, so, s, so', s', h => by
     unfold buildLoop at h
-    unfold loopSteps
+    unfold loopStepsEach
     split at h
     · cases h
     rename_i h1
@@ -132,9 +132,9 @@ theorem applySteps_loop (F : BodyFn) (P : Project) (g : G) (cfg : Cfg) :
     exact applySteps_loop F P g cfg ts _ _ so' s' h
 
 theorem applySteps_build (F : BodyFn) (P : Project) (cfg : Cfg) (w : World) (picks : List Nat) (r : Result)
-    (h : build F P cfg w picks = .ok r) : applySteps w (buildSteps F P cfg w picks) = r.w := by
+    (h : build F P cfg w picks = .ok r) : applySteps w (buildStepsEach F P cfg w picks) = r.w := by
   unfold build at h
-  unfold buildSteps
+  unfold buildStepsEach
   split at h
   · rename_i hdag
     cases h; simp [hdag]
@@ -321,11 +321,11 @@ theorem applySteps_onlyRows_other {t : Nat} {st : List Step} (h : OnlyRowsOf t s
     intro heq
     exact tv_ne_of_ne hu (by simpa using congrArg Prod.fst heq)
 
-theorem rowSteps_onlyRows (P : Project) (w : World) (t : Nat) (vs : List Nat) : OnlyRowsOf t (rowSteps P w t vs) := by
+theorem rowSteps_onlyRows (P : Project) (w : World) (t : Nat) (vs : List Nat) : OnlyRowsOf t (rowStepsEach P w t vs) := by
   induction vs with
   | nil => intro s hs; cases hs
   | cons v vs ih =>
-    unfold rowSteps
+    unfold rowStepsEach
     cases hst : stateOf P w v with
     | none => intro s hs; cases hs
     | some x =>
@@ -359,8 +359,8 @@ theorem phaseSteps_onlyWrites (F : BodyFn) (P : Project) (g : G) (cfg : Cfg) (s 
   · intro s hs; cases hs
 
 theorem reportSteps_onlyRows (P : Project) (g : G) (cfg : Cfg) (s : Sess) (t : TaskSpec) (r : Raised) :
-    OnlyRowsOf t.id (reportSteps P g cfg s t r) := by
-  unfold reportSteps
+    OnlyRowsOf t.id (reportStepsEach P g cfg s t r) := by
+  unfold reportStepsEach
   split
   · exact rowSteps_onlyRows P s.w t.id _
   · intro s hs; cases hs
@@ -632,8 +632,8 @@ namespace Engine
 /-- Lemma B: `Inv` holds after every prefix of the atomic updates of one protocol. -/
 theorem inv_protocol_prefix {F : BodyFn} {P : Project} {g : G} (hwf : WF P g) (cfg : Cfg) (s : Sess) (spec : TaskSpec)
     (hspec : spec ∈ P.tasks) (hrc : RC F P g s.w.db) (k : Nat) :
-    Inv F P g (applySteps s.w ((protocolSteps F P g cfg s spec).take k)) := by
-  unfold protocolSteps
+    Inv F P g (applySteps s.w ((protocolStepsEach F P g cfg s spec).take k)) := by
+  unfold protocolStepsEach
   simp only []
   rw [List.take_append, applySteps_append]
   have hph := phaseSteps_onlyWrites F P g cfg s spec
@@ -652,10 +652,10 @@ theorem inv_protocol_prefix {F : BodyFn} {P : Project} {g : G} (hwf : WF P g) (c
       exact inv_of_rc hwf _ hrc1
 
 theorem loopSteps_crashed (F : BodyFn) (P : Project) (g : G) (cfg : Cfg) (so : Sorter) (s : Sess) (picks : List Nat)
-    (h : s.crashed = true) : loopSteps F P g cfg so s picks = [] := by
+    (h : s.crashed = true) : loopStepsEach F P g cfg so s picks = [] := by
   cases picks with
   | nil => rfl
-  | cons t ts => unfold loopSteps; simp [h]
+  | cons t ts => unfold loopStepsEach; simp [h]
 
 theorem mem_of_find? {P : Project} {t : Nat} {spec : TaskSpec} (h : Project.find? P t = some spec) : spec ∈ P.tasks := by
   unfold Project.find? at h
@@ -664,12 +664,12 @@ theorem mem_of_find? {P : Project} {t : Nat} {spec : TaskSpec} (h : Project.find
 /-- `Inv` after every prefix of the atomic updates of a build loop started with consistent rows. -/
 theorem inv_loop_prefix {F : BodyFn} {P : Project} {g : G} (hwf : WF P g) (cfg : Cfg) :
     ∀ (picks : List Nat) (so : Sorter) (s : Sess), RC F P g s.w.db → ∀ k,
-      Inv F P g (applySteps s.w ((loopSteps F P g cfg so s picks).take k))
+      Inv F P g (applySteps s.w ((loopStepsEach F P g cfg so s picks).take k))
   | [], so, s, hrc, k => by
-    simp only [loopSteps, List.take_nil, applySteps_nil]
+    simp only [loopStepsEach, List.take_nil, applySteps_nil]
     exact inv_of_rc hwf _ hrc
   | t :: ts, so, s, hrc, k => by
-    unfold loopSteps
+    unfold loopStepsEach
     split
     · simp only [List.take_nil, applySteps_nil]; exact inv_of_rc hwf _ hrc
     split
@@ -679,8 +679,8 @@ theorem inv_loop_prefix {F : BodyFn} {P : Project} {g : G} (hwf : WF P g) (cfg :
     rename_i spec hfind
     have hspec := mem_of_find? hfind
     rw [List.take_append, applySteps_append]
-    by_cases hk : k ≤ (protocolSteps F P g cfg s spec).length
-    · have : k - (protocolSteps F P g cfg s spec).length = 0 := by omega
+    by_cases hk : k ≤ (protocolStepsEach F P g cfg s spec).length
+    · have : k - (protocolStepsEach F P g cfg s spec).length = 0 := by omega
       rw [this, List.take_zero, applySteps_nil]
       exact inv_protocol_prefix hwf cfg s spec hspec hrc k
     · rcases rc_protocol hwf cfg s spec hspec hrc with hcr | hrc'
@@ -793,6 +793,18 @@ module, and row commits of other tasks. -/
 def StepAvoids (P : Project) (g : G) (t : Nat) : Step → Prop
   | .write n _ => nv n ∉ neighbours g t ∧ ∀ spec, Project.find? P t = some spec → spec.src ≠ n
   | .row u _ _ => u ≠ t
+  | .rows u _ => u ≠ t
+
+theorem lookup_applyRows_other (db : DB) (t : Nat) (rs : List (Nat × Nat)) (u x : Nat) (hu : u ≠ t) :
+    lookup (applyRows db t rs) (tv u, x) = lookup db (tv u, x) := by
+  unfold applyRows
+  induction rs generalizing db with
+  | nil => rfl
+  | cons r rs ih =>
+    rw [List.foldl_cons, ih]
+    apply cr_lookup_insert_ne
+    intro heq
+    exact tv_ne_of_ne hu (by simpa using congrArg Prod.fst heq)
 
 theorem stateOf_write_avoid (P : Project) (g : G) (t : Nat) (w : World) (n c : Nat)
     (h : StepAvoids P g t (.write n c)) (v : Nat) (hv : v ∈ neighbours g t) (hvt : isTaskV v = true → v = tv t) :
@@ -840,6 +852,11 @@ theorem rowsMatch_frame (P : Project) (g : G) (t : Nat) (hT : ∀ v ∈ neighbou
       refine ⟨x, h1, ?_⟩
       simp only [applyStep]
       rw [cr_lookup_insert_ne _ _ _ _ (by intro heq; exact tv_ne_of_ne hs (by simpa using (congrArg Prod.fst heq).symm))]
+      exact h2
+    | rows u rs =>
+      refine ⟨x, h1, ?_⟩
+      simp only [applyStep]
+      rw [lookup_applyRows_other _ _ _ _ _ (Ne.symm hs)]
       exact h2
 
 end Engine
